@@ -70,6 +70,7 @@ def run_batches(prop, vseed, tier, n_runs, batch_size, workers, outdir, wall_lim
         i += c
         b += 1
     pending = list(batches)
+    skipped = []
     running = []
     results = []
     herrs = []
@@ -107,7 +108,11 @@ def run_batches(prop, vseed, tier, n_runs, batch_size, workers, outdir, wall_lim
             except OSError:
                 pass
 
+    stop_after = int(os.environ.get('DDSIM_STOP_AFTER_FAILURES', '40'))
     while pending or running:
+        if pending and stop_after and sum(1 for r_ in results if r_.get('failure') and prop in r_['failure']['props']) >= stop_after:
+            skipped.extend(pending)
+            pending = []
         while pending and len(running) < workers:
             running.append(launch(pending.pop(0)))
         time.sleep(0.05)
@@ -134,7 +139,10 @@ def run_batches(prop, vseed, tier, n_runs, batch_size, workers, outdir, wall_lim
                 running.remove(r)
                 harvest(r)
                 herrs.append(f'batch {r["bt"]} exceeded wall limit {wall_limit}s and was killed')
-    expected = {i for i in range(n_runs)}
+    not_run = set()
+    for bno, start, count in skipped:
+        not_run.update(range(start, start + count))
+    expected = {i for i in range(n_runs)} - not_run
     got = {r.get('idx') for r in results}
     missing = sorted(expected - got)
     if missing and not herrs:
